@@ -50,6 +50,8 @@ func caseGen() *rapid.Generator[Case] {
 					op.Key = rapid.IntRange(0, len(Keys)-1).Draw(t, "key2")
 				}
 				op.Reps = rapid.IntRange(1, 5).Draw(t, "reps")
+				op.V = rapid.SampledFrom([]int{0, 0, 0, 1, 1, 2, 3, 4}).Draw(t, "vform")
+				op.N = rapid.IntRange(0, 2).Draw(t, "itemchange")
 			case "addcopy":
 				op.Owner = Owner{Kind: "copy", I: rapid.IntRange(0, 5).Draw(t, "copy")}
 				op.N = rapid.IntRange(0, 5).Draw(t, "row")
@@ -81,6 +83,7 @@ func TestEnum(t *testing.T) {
 		{K: "set", Owner: Owner{Kind: "hcol"}, Key: 0}, {K: "setnil", Owner: Owner{Kind: "col", I: 1}, Key: 0},
 		{K: "grow", N: 11},
 		{K: "reset", Owner: cell, Key: 0, Reps: 3},
+		{K: "set", Owner: cell, Key: 0, V: 1}, {K: "update", Owner: cell, N: 1},
 	}
 	prefix := []Op{{K: "grow", N: 2}, {K: "handle", Col: 1}}
 	shard, shards := h.Shard()
@@ -107,5 +110,5 @@ func TestEnum(t *testing.T) {
 		}
 	}
 	rec(prefix)
-	ev.R().Sub(ev.SubRun{Name: "small-histories", Bound: "every sequence of 1..N operations (N = VERIF_C12_ENUM_LEN) over a 14-operation alphabet (3 keys; cell, its copy, a column handle; copy; growth past 10 columns; re-set)", Cases: n, Exhaustive: true})
+	ev.R().Sub(ev.SubRun{Name: "small-histories", Bound: "every sequence of 1..N operations (N = VERIF_C12_ENUM_LEN) over a 16-operation alphabet (3 keys; cell, its copy, a column handle; copy; growth past 10 columns; re-set; a pointer value equal in contents to the previous one; Update after the item changed)", Cases: n, Exhaustive: true})
 }
